@@ -9,7 +9,7 @@ use serde_json::{json, Value as J};
 
 pub static PROP: Prop = Prop {
     id: "C09",
-    rule: "cases: (1) a decimal literal digits[.digits] with 1-28 significant digits, scale 0-28, leading/trailing zeros, mantissas around 2^32, 2^64, 2^96-1: execute must give Number with exactly the literal's mantissa and scale; (2) pairs (a, b) of such literals, optionally negated, under + - * % < <= > >= == != and the compound forms += -= *= %=, biased to equal values at different scales, values differing in the last place, classic binary-float traps (0.1, 0.2, 0.3, 1.10, 0.7, 4.35) and results on the range boundary: the result must equal the exact big-integer result whenever that is representable (96-bit mantissa, scale <= 28); (3) malformed literals (1.2.3, 1e5, 1e+5, 1E-2, 1..2, integers >= 2^96): execute must be Err. Non-trivial: operands with different scales, or >= 20 significant digits, or a fractional operand; distinct by (operator, digit counts, scales, relation/outcome class).",
+    rule: "cases: (1) a decimal literal digits[.digits] with 1-28 significant digits, scale 0-28, leading/trailing zeros, mantissas around 2^32, 2^64, 2^96-1: execute must give Number with exactly the literal's mantissa and scale, also after `a = first ; a = second ; a` (the second literal's); (2) pairs (a, b) of such literals, optionally negated, under + - * % < <= > >= == != and the compound forms += -= *= %=, biased to equal values at different scales, values differing in the last place, classic binary-float traps (0.1, 0.2, 0.3, 1.10, 0.7, 4.35) and results on the range boundary: the result must equal the exact big-integer result whenever that is representable (96-bit mantissa, scale <= 28); (3) malformed literals (1.2.3, 1e5, 1e+5, 1E-2, 1..2, integers >= 2^96): execute must be Err. Non-trivial: operands with different scales, or >= 20 significant digits, or a fractional operand; distinct by (operator, digit counts, scales, relation/outcome class).",
     assumptions: &[
         "the exact oracle is the harness's own big-integer decimal arithmetic (unit-tested)",
         "a result that is in range but needs rounding, and a literal with more than 28 significant digits, are not asserted (not pinned by the statement); overflow is C04's subject",
@@ -146,6 +146,26 @@ fn check_literal(text: &str, st: &mut Stats) -> CaseResult {
             }
         }
         other => Err(Failure::new("literal:rejected", format!("literal {} gave {}", text, show(other)), case)),
+    }
+}
+
+/// a variable re-assigned with a numerically equal literal of another scale must hold the new digits
+fn check_reassign(first: &str, second: &str, st: &mut Stats) -> CaseResult {
+    let text = format!("a = {} ; a = {} ; a", first, second);
+    let case = json!({"kind": "reassign", "first": first, "second": second});
+    let expect = BigDec::from_literal(second).expect("valid literal");
+    st.hist("literal-through-reassignment");
+    st.nontrivial(&format!("reassign:{}:{}", BigDec::from_literal(first).map(|d| d.scale).unwrap_or(0), expect.scale));
+    match exec_text(&text) {
+        Ok(Ok(Value::Number(d))) => {
+            let g = BigDec::from_decimal(&d);
+            if g.mant == expect.mant && g.scale == expect.scale {
+                Ok(())
+            } else {
+                Err(Failure::new("literal:scale-lost-in-assignment", format!("{} evaluated to {} (the digits of the literal assigned last are not preserved)", text, g.to_text()), case))
+            }
+        }
+        other => Err(Failure::new("literal:rejected", format!("{} gave {}", text, show(&other)), case)),
     }
 }
 
@@ -293,6 +313,15 @@ fn case(src: &mut Src, st: &mut Stats, _env: &Env) -> CaseResult {
         0 => {
             let t = gen_literal(src);
             st.sample(|| json!({"kind": "literal", "text": t}));
+            if src.chance(1, 3) {
+                // the same value with other trailing zeros first, then the literal itself
+                let extra = 1 + src.pick(3);
+                let first = if t.contains('.') { format!("{}{}", t, "0".repeat(extra)) } else { format!("{}.{}", t, "0".repeat(extra)) };
+                if first.chars().filter(|c| c.is_ascii_digit()).count() <= 28 {
+                    check_reassign(&first, &t, st)?;
+                    return check_reassign(&t, &first, st);
+                }
+            }
             check_literal(&t, st)
         }
         1 => {
@@ -316,6 +345,7 @@ fn replay(case: &J, st: &mut Stats, _env: &Env) -> CaseResult {
     st.eval();
     match case["kind"].as_str().unwrap_or("") {
         "literal" => check_literal(case["text"].as_str().unwrap_or("0"), st),
+        "reassign" => check_reassign(case["first"].as_str().unwrap_or("0"), case["second"].as_str().unwrap_or("0"), st),
         "malformed" => check_malformed(case["text"].as_str().unwrap_or("1e5"), st),
         _ => check_pair(
             case["a"].as_str().unwrap_or("0"),
